@@ -9,8 +9,10 @@
 mod alloc;
 mod checks;
 mod core;
+mod fam_corrupt;
 mod fam_crash;
 mod fam_histw;
+mod fam_rfault;
 mod fam_rt;
 mod fam_wfault;
 mod gen;
@@ -82,7 +84,11 @@ fn main() {
             orch::cmd_check(&prop, tier, env_seed(), workers.max(1))
         }
         Some("worker") => {
-            let r = orch::cmd_worker(&args[2], parse_tier(&args[3]), args[4].parse().unwrap(), args[5].parse().unwrap(), args[6].parse().unwrap());
+            let resume = match (args.get(7), args.get(8)) {
+                (Some(ph), Some(u)) => Some((ph.clone(), u.parse().unwrap())),
+                _ => None,
+            };
+            let r = orch::cmd_worker(&args[2], parse_tier(&args[3]), args[4].parse().unwrap(), args[5].parse().unwrap(), args[6].parse().unwrap(), resume);
             cleanup_scratch();
             r
         }
